@@ -3,6 +3,7 @@
   Model of: src/freephil/tokens.py (identifier classes), tokenizer.word, common.definition / common.scope
   (the data they carry, not their behaviour).  Strings are `List Char`.
 -/
+import Phil.Generated.Tables
 namespace Phil
 
 abbrev Str := List Char
@@ -145,13 +146,9 @@ def Attrs.get (a : Attrs) (name : String) : AttrVal :=
   | some p => p.2
   | Option.none => AttrVal.none
 
-def defAttrNames : List String :=
-  ["help", "caption", "short_caption", "optional", "type", "multiple", "input_size", "style",
-   "expert_level", "deprecated", "alias"]
-
-def scopeAttrNames : List String :=
-  ["style", "help", "caption", "short_caption", "optional", "call", "multiple",
-   "sequential_format", "disable_add", "disable_delete", "expert_level", "alias"]
+/-- definition.attribute_names / scope.attribute_names — regenerated from src/freephil/common.py -/
+def defAttrNames : List String := Gen.defAttrNames
+def scopeAttrNames : List String := Gen.scopeAttrNames
 
 /-- fields common to definitions and scopes -/
 structure Meta where
